@@ -518,7 +518,7 @@ func retryOne(t *testing.T, c *vcore.Ctx, cs *rsCase) {
 	if (cs.Cancel == "never" && len(r.opens) >= 2) || (cancelled && (cs.Cancel != "backoff" || r.cancelledInRcv)) {
 		c.Nontrivial(vcore.JSON(cs))
 	}
-	if c.WantSample() && len(r.opens) >= 3 && len(r.delivered) >= 2 && !rsSampled[cs.Cancel] {
+	if c.WantSample() && len(r.opens) >= 3 && len(r.delivered) >= 2 && !rsSampled[cs.Cancel] && (cs.Cancel == "never" || cancelled) {
 		rsSampled[cs.Cancel] = true
 		c.Sample(map[string]any{"case": cs, "delivered": r.delivered, "opens": len(r.opens), "opens_after_cancel": r.afterCancel,
 			"final_error": fmt.Sprint(r.finalErr), "trace": r.trace()})
@@ -809,8 +809,22 @@ func retrySmokeOne(t *testing.T, c *vcore.Ctx, sc *rsSmokeCase) {
 		<-srvDone
 		_ = lis.Close()
 	})
-	if openErr != nil || status.Code(finalErr) == codes.DeadlineExceeded || errors.Is(finalErr, context.DeadlineExceeded) {
-		c.HarnessError("C36 smoke %s: did not complete: open=%v final=%v", vcore.JSON(sc), openErr, finalErr)
+	if openErr != nil {
+		c.HarnessError("C36 smoke %s: could not open: %v", vcore.JSON(sc), openErr)
+		return
+	}
+	if status.Code(finalErr) == codes.DeadlineExceeded || errors.Is(finalErr, context.DeadlineExceeded) {
+		// the call stalled until the virtual liveness deadline
+		srvImpl.mu.Lock()
+		started, nreq := srvImpl.started, len(srvImpl.reqs)
+		srvImpl.mu.Unlock()
+		if started > nreq {
+			// deterministic in virtual time: a stream reached the server, no request ever followed, both sides waited
+			c.Violate("C36/request-not-resent", fmt.Sprintf("bufconn smoke: %d streams reached the server but only %d carried a request; the call stalled until the virtual liveness deadline | case=%s delivered=%v",
+				started, nreq, vcore.JSON(sc), delivered), sc)
+			return
+		}
+		c.HarnessError("C36 smoke %s: did not complete: final=%v", vcore.JSON(sc), finalErr)
 		return
 	}
 	// the same script through the scripted seam
